@@ -147,6 +147,45 @@ fn frames() -> Vec<Frame> {
     out
 }
 
+/// Sizes a reply is bulked up to: beyond one, four, eight and eighteen receive-buffer steps.
+const BULK_SIZES: [usize; 4] = [300, 1100, 2100, 4700];
+const BULK_KINDS: [&str; 4] = ["whitespace after the opening brace", "an unknown member in front", "an unknown member at the end", "a long string inside the parameters"];
+
+/// The same reply made longer without changing what it says: `kind` as in BULK_KINDS.  `None` when
+/// the kind does not apply to this frame (no string parameter to lengthen).
+fn bulked(f: &Frame, kind: usize, size: usize) -> Option<Frame> {
+    let t = &f.text;
+    let need = size.saturating_sub(t.len()).max(1);
+    let empty = t == "{}";
+    let text = match kind {
+        0 => format!("{{{}{}", " ".repeat(need), &t[1..]),
+        1 => format!("{{\"zz\":\"{}\"{}{}", "Z".repeat(need), if empty { "" } else { "," }, &t[1..]),
+        2 => format!("{}{}\"zz\":\"{}\"}}", &t[..t.len() - 1], if empty { "" } else { "," }, "Z".repeat(need)),
+        _ => {
+            let (from, c) = if t.contains("\"s\":\"ok\"") { ("\"s\":\"ok\"", "ok") } else if t.contains("\"s\":\"e\"") { ("\"s\":\"e\"", "e") } else { return None };
+            t.replacen(from, &format!("\"s\":\"{c}{}\"", "S".repeat(need)), 1)
+        }
+    };
+    Some(Frame { text, has_error: f.has_error, error_name: f.error_name.clone(), what: format!("{}; bulked to {} bytes by {}", f.what, size, BULK_KINDS[kind]) })
+}
+
+/// Base frames followed by every applicable bulked form of each.
+fn all_frames() -> (Vec<Frame>, usize) {
+    let base = frames();
+    let n = base.len();
+    let mut out = base.clone();
+    for f in &base {
+        for kind in 0..BULK_KINDS.len() {
+            for size in BULK_SIZES {
+                if let Some(b) = bulked(f, kind, size) {
+                    out.push(b);
+                }
+            }
+        }
+    }
+    (out, n)
+}
+
 #[derive(Debug, PartialEq)]
 enum Got {
     Success(String),
@@ -160,11 +199,22 @@ macro_rules! run_one {
     ($P:ty, $E:ty, $declared:expr, $frame:expr, $path:expr) => {{
         let f: &Frame = $frame;
         let wire = Wire::new(0, None);
-        let mut bytes = f.text.clone().into_bytes();
+        let mut bytes = Vec::new();
+        if $path == 2 {
+            bytes.extend_from_slice(b"{\"parameters\":{\"first\":true}}\0");
+        }
+        bytes.extend_from_slice(f.text.as_bytes());
         bytes.push(0);
         wire.arrive(&bytes);
         let mut conn = wire.connection();
-        let r = if $path == 0 { complete_or_stall(conn.receive_reply::<$P, $E>()) } else { complete_or_stall(conn.call_method::<_, $P, $E>(&Call::new(Ping { method: "a.Ping" }))) };
+        if $path == 2 {
+            // the reply under test is the second frame of one arrival: the first one is taken off first
+            match complete_or_stall(conn.receive_reply::<Value, E0>()) {
+                Some(Ok(Ok(_))) => {}
+                other => xplore::bug!("the leading success reply was not received as one: {other:?}"),
+            }
+        }
+        let r = if $path != 1 { complete_or_stall(conn.receive_reply::<$P, $E>()) } else { complete_or_stall(conn.call_method::<_, $P, $E>(&Call::new(Ping { method: "a.Ping" }))) };
         let got = match r {
             None => Got::Stall,
             Some(Ok(Ok(r))) => Got::Success(format!("{r:?}")),
@@ -216,6 +266,7 @@ macro_rules! run_one {
     }};
 }
 
+const PATHS: [&str; 3] = ["receive_reply", "call_method", "receive_reply, as the second frame of one arrival"];
 const NP: usize = 5;
 const NE: usize = 3;
 
@@ -226,7 +277,7 @@ fn one(fr: &[Frame], i: u64, sink: &mut Sink<'_>) {
     let (p, e, path) = ((rest % NP as u64) as usize, (rest / NP as u64 % NE as u64) as usize, (rest / (NP * NE) as u64) as usize);
     let pnames = ["()", "AllOpt{a:Option<u8>}", "serde_json::Value", "Strict{n:u8,s:String}", "Option<Strict>"];
     let enames = ["E1{Unit,St{n,s:String}}", "E2<'a>{Unit,St{n,s:&str}}", "E0{}"];
-    let case = json!({"frame": f.text, "what": f.what, "expected_parameters": pnames[p], "error_type": enames[e], "path": if path == 0 { "receive_reply" } else { "call_method" }, "index": i});
+    let case = json!({"frame": f.text, "what": f.what, "expected_parameters": pnames[p], "error_type": enames[e], "path": PATHS[path], "index": i});
     const D: &[&str] = &["a.Unit", "a.St"];
     const NONE: &[&str] = &[];
     macro_rules! with_e {
@@ -249,6 +300,9 @@ fn one(fr: &[Frame], i: u64, sink: &mut Sink<'_>) {
         sink.goal("reply-with-error-member");
         if f.text.contains("\"n\":7") {
             sink.goal("error-reply-whose-parameters-fit-the-success-type");
+            if f.text.len() > 1024 {
+                sink.goal("long-error-reply-whose-parameters-fit-the-success-type");
+            }
         }
     }
     match verdict {
@@ -267,28 +321,29 @@ fn one(fr: &[Frame], i: u64, sink: &mut Sink<'_>) {
             sink.state(H64::new().u(kind).u(p as u64).u(e as u64).get());
             sink.pass(H64::new().s(&f.text).u(p as u64).u(e as u64).u(kind).get());
         }
-        Err((class, detail)) => sink.fail(class, format!("{detail}; frame `{}` ({}) as <{}, {}> via {}", f.text, f.what, pnames[p], enames[e], if path == 0 { "receive_reply" } else { "call_method" }), case),
+        Err((class, detail)) => sink.fail(class, format!("{detail}; frame `{}` ({}) as <{}, {}> via {}", f.text, f.what, pnames[p], enames[e], PATHS[path]), case),
     }
 }
 
 pub fn run(tier: Tier) -> i32 {
     let mut rep = Report::new("C04", tier.name());
-    let fr = frames();
-    rep.rule = format!("complete product: {} reply frames (success / declared unit and struct errors with right, wrong-typed, missing, extra, absent parameters / undeclared errors / the six org.varlink.service errors with and without their parameters / error replies whose parameters fit the expected success type; x continues absent|true|false x every member order) x 5 expected parameter types x 3 error types (derived, derived with lifetime, empty enum) x {{receive_reply, call_method}}. Distinct = distinct (frame, types, classification)", fr.len());
+    let (fr, nbase) = all_frames();
+    rep.rule = format!("complete product: {} reply frames ({nbase} base frames + each bulked up to 300/1100/2100/4700 bytes in up to four meaning-preserving ways: whitespace, an unknown member in front / at the end, a long string parameter; base frames: success / declared unit and struct errors with right, wrong-typed, missing, extra, absent parameters / undeclared errors / the six org.varlink.service errors with and without their parameters / error replies whose parameters fit the expected success type; x continues absent|true|false x every member order) x 5 expected parameter types x 3 error types (derived, derived with lifetime, empty enum) x {{receive_reply, call_method, receive_reply as the second frame of one arrival}}. Distinct = distinct (frame, types, classification)", fr.len());
     rep.assumptions = vec![
         "an error type `recognises` a reply iff the reply's error name is one of its declared variants and serde_json decodes the frame as that type".into(),
         "a standard error is one whose name is in org.varlink.service and which decodes as varlink_service::Error; ill-formed ones must simply not be a success".into(),
     ];
     rep.require_goal("reply-with-error-member");
     rep.require_goal("error-reply-whose-parameters-fit-the-success-type");
+    rep.require_goal("long-error-reply-whose-parameters-fit-the-success-type");
     let cfg = Config { max_wall: std::time::Duration::from_secs(tier.pick(60, 600)), ..Default::default() };
-    let n = fr.len() as u64 * NP as u64 * NE as u64 * 2;
+    let n = fr.len() as u64 * NP as u64 * NE as u64 * PATHS.len() as u64;
     rep.add(sweep("product", n, &cfg, |i, s| one(&fr, i, s)));
     rep.finish()
 }
 
 pub fn replay(v: &Value) -> Replayed {
-    let fr = frames();
+    let (fr, _) = all_frames();
     let idx = v["case"]["index"].as_u64().or(v["index"].as_u64()).unwrap_or(0);
     let st = xplore::sweep_one("replay", idx, &Config { threads: 1, ..Default::default() }, |i, s| one(&fr, i, s));
     let _ = Map::<String, Value>::new();
